@@ -7,8 +7,7 @@ import subprocess
 import sys
 import time
 
-from harness.common import GEN, ROCQ, VERIF, TranslateError, ensure_makefile, import_guard
-from translate.registry import GEN as REG
+from harness.common import GEN, ROCQ, VERIF, TranslateError, discover_translators, ensure_makefile, import_guard
 
 
 def main() -> int:
@@ -16,9 +15,9 @@ def main() -> int:
     t0 = time.time()
     GEN.mkdir(exist_ok=True)
     rc = 0
-    for name, (mod, fn) in sorted(REG.items()):
+    for name, fn in sorted(discover_translators().items()):
         try:
-            text, _side = getattr(importlib.import_module(mod), fn)()
+            text, _side = fn()
             p = GEN / f'{name}.v'
             if not p.exists() or p.read_text() != text:
                 p.write_text(text)
